@@ -52,6 +52,23 @@ CHECKS = {
                 text="Exit sequences of length 0-3 sharing keys with notes and actions, all press/release orders mixed with other keys; signal count, silent completing "
                      "press and unchanged state checked per step.",
                 note="Further presses while the whole sequence stays held are not generated (the statement is silent about them)."),
+    "C15": dict(level="exploration", ref="DESIGN.md §4 C15",
+                text="Seeded schedules of the real relay goroutines and the real fan-out with concurrent emitters, a numbered input stream and consumers that attach, "
+                     "detach, read slowly or stop reading; oracles over the recorded history stamped with scheduler sequence numbers: exactly-once, per-emitter FIFO, "
+                     "real-time order at the port, gap-free interval per consumer with attach/detach bounds, bounded completion of DespawnOutput.",
+                note="Context stays alive (shutdown ordering is not part of the statement). One known finding (a consumer that stopped reading blocks the fan-out and "
+                     "DespawnOutput) is listed in known_findings.jsonl; it lives in its own low-weight profile so that it cannot mask anything else."),
+    "C16": dict(level="exploration", ref="DESIGN.md §4 C16",
+                text="Seeded schedules of 1-3 real devices (event loop, MIDI-in tracker, LED loop against a fake OpenRGB server) with unplug at PRNG-chosen moments and "
+                     "injected peer faults, built with -race: bounded termination, no live child goroutines, the race detector as happens-before monitor (the "
+                     "scheduler's own synchronisation is hidden from it), solo-vs-together differential for cross-talk.",
+                note="Servers answer with bounded delays (a server stalled forever is outside the statement). Race reports without a frame in HIDI abort with exit 2."),
+    "C17": dict(level="exploration", ref="DESIGN.md §4 C17",
+                text="Lock-step runs of a real device with the LED loop connected to a fake OpenRGB server (real wire protocol over net.Pipe, sysfs stub): after each key / "
+                     "MIDI-in step the last frame is compared with a reference frame function of the model state; the final frame after unplug must be all red.",
+                note="Exact clauses for key colours, unavailable, active, active_external, red-on-disconnect; relational (learned per run) for channel colours and the "
+                     "octave/semitone/mapping/channel keys; where several highlights apply to one LED any of them is accepted; panic/multinote key colours, unmapped keys and "
+                     "the mapping named Control are not asserted."),
 }
 
 NA = {}
